@@ -48,6 +48,9 @@ func c19(ctx *Ctx) (*Outcome, error) {
 		}
 		cases = append(cases, c)
 	}
+	for i := 0; i < 6; i++ {
+		cases = append(cases, ecmaPatternCase(i))
+	}
 	for i := 0; i < 5; i++ {
 		// format-typed strings fed texts next to the canonical forms (empty, truncated, with zone suffix ...)
 		c := lenientFormatCase(i)
